@@ -80,6 +80,26 @@ DESC = {
  "C13-r3-2": "non-sticky 'added in increasing order' flag skips the duplicate scan; needs high, low, middle, then a range reaching back into the high block",
  "C14-r3-1": "first-range short-circuit replaced by a Min()/Max() test (as C14-1); needs a huge first range containing 0",
  "C14-r3-2": "`End()` early-outs replaced by the sign of `(end-start)*step`; needs a product in (2^63, 2^64)",
+ "C02-r4-1": "`closestInRange` clamps through float64; needs frame numbers beyond 2^53",
+ "C02-r4-2": "`Frames()` returns its own backing slice (the library's `FramesToFrameRange(fs.Frames(), true, …)` sorts it in place)",
+ "C05-r4-1": "bare-frame pad characters from the default style (as C05-r2-2)",
+ "C05-r4-2": "bucket key = `dir+base+ext` as one string; needs two splits whose concatenations coincide (`img01.left.exr`, `img.left01.exr`)",
+ "C07-r4-1": "pad-style option appended to the caller's `opts`; needs a shared option slice with spare capacity and strict → loose → strict",
+ "C07-r4-2": "frame test by a digits-only helper; needs a sibling digit run beyond int64 (phantom frame / never returns)",
+ "C12-r4-1": "`SetFrameRange` overwrites the FrameSet pointee; needs the same FrameSet reachable from two sequences",
+ "C12-r4-2": "`Split` builds parts with `newFileSequence`; needs an empty pad and ≥ 2 comma components",
+ "C15-r4-1": "one-frame span already in the set returns before the step is checked; needs `1-10,5-5x0`",
+ "C15-r4-2": "look-behind by `TrimSuffix`; needs a lone file named `--5.exr` → panic",
+ "C16-r4-1": "shared error sentinel written on `parseInt`'s error path; needs two goroutines failing on overflowing numerals",
+ "C16-r4-2": "`FindSequenceOnDiskPad` appends to the caller's option slice; needs an option slice shared between goroutines",
+ "C17-r4-1": "`readDir` treats a block with ≥ 256 free bytes as the end; needs names of 237-255 bytes at an 8 KB boundary",
+ "C17-r4-2": "`-r` roots that are the same directory are walked once; needs the same directory under two spellings",
+ "C18-r4-1": "stdin read with `ReadLine`, `isPrefix` dropped; needs a stdin line of ≥ 4097 bytes",
+ "C18-r4-2": "worker pool of `NumCPU()-1`; needs a process confined to one CPU → deadlock",
+ "C19-r4-1": "C++ template lookup validates the middle with one `strtol` (skips a space, accepts `+`); needs `shot 0001.exr` next to a lookup of `shot#.exr`",
+ "C19-r4-2": "C++ `Range::index` through `int abs(int)`; needs a position ≥ 2^31 inside one block",
+ "C20-r4-1": "map compaction copies under RLock and swaps under Lock; needs ≥ 1024 handles released while another thread releases or creates",
+ "C20-r4-2": "handle = address of the entry; needs release, a GC cycle, re-creation (the id comes back)",
  "C02-r2-2": "`Frames()` memoised and shared; needs Frames → caller mutates the slice → query again",
 }
 rows = []
